@@ -93,27 +93,31 @@ def perms_exhaustive(ck, hcmd, dcmd, n, pairs=None, label=None):
 
     def work(job):
         text = "".join("perms %d %d %d %d %d\n" % (n, a, b, c, d) for (a, b, c, d) in job)
-        ok, info = same(ck, hcmd, dcmd, text)
-        return job, ok
+        ok, (rc1, o1, e1, o2) = same(ck, hcmd, dcmd, text)
+        return job, (None if ok else diff_kind(o1, o2, rc1))
 
-    bad = []
+    bad_obs, bad_int = [], []
     ncases = 0
     with ThreadPoolExecutor(NPROC) as ex:
-        for job, ok in ex.map(work, jobs):
+        for job, kind in ex.map(work, jobs):
             for (a, b, c, d) in job:
                 ncases += (b - a) * (d - c)
-            if not ok:
-                bad.append(job)
+            if kind == "obs":
+                bad_obs.append(job)
+            elif kind == "int":
+                bad_int.append(job)
+    ck.cov["internal_only_mismatching_jobs"] = ck.cov.get("internal_only_mismatching_jobs", 0) + len(bad_int)
+    bad = bad_obs[:1]
+    if not bad and bad_int and not ck.violations:
+        bad = bad_int[:1]          # document one internal-only difference, keep searching
     ck.count(ncases)
     ck.cov["perms_cases"] = ck.cov.get("perms_cases", 0) + ncases
     ck.cov["perms_ops"] = ck.cov.get("perms_ops", 0) + ncases * 2 * n
     ck.cov.setdefault("perms_by_n", {})
     ck.cov["perms_by_n"][str(n)] = ck.cov["perms_by_n"].get(str(n), 0) + ncases
-    nfail = 0
-    for job in bad[:1]:
-        nfail += 1
+    for job in bad:
         locate_perm_failure(ck, hcmd, dcmd, n, job, label or ("perms n=%d" % n))
-    return len(bad)
+    return len(bad_obs) + len(bad_int)
 
 
 def locate_perm_failure(ck, hcmd, dcmd, n, job, label):
@@ -183,22 +187,30 @@ def run_cases_parallel(ck, hcmd, dcmd, cases, label, chunk=None):
         for c in g:
             lines.append("#case")
             lines.extend(c)
-        ok, _ = same(ck, hcmd, dcmd, "\n".join(lines) + "\n")
-        return g, ok, len(lines)
+        ok, (rc1, o1, e1, o2) = same(ck, hcmd, dcmd, "\n".join(lines) + "\n")
+        return g, (None if ok else diff_kind(o1, o2, rc1)), len(lines)
 
-    bad = []
+    bad_obs, bad_int = [], []
     with ThreadPoolExecutor(NPROC) as ex:
-        for g, ok, nl in ex.map(work, groups):
+        for g, kind, nl in ex.map(work, groups):
             ck.cov["op_lines"] = ck.cov.get("op_lines", 0) + nl
-            if ok:
+            if kind is None:
                 ck.count(len(g))
                 for c in g:
                     ck.distinct(tuple(c))
+            elif kind == "obs":
+                bad_obs.append(g)
             else:
-                bad.append(g)
+                bad_int.append(g)
+                ck.count(len(g))
+    ck.cov["internal_only_mismatching_jobs"] = ck.cov.get("internal_only_mismatching_jobs", 0) + len(bad_int)
     nfail = 0
-    for g in bad[:2]:
+    for g in bad_obs[:2]:
         nfail += ck.compare_cases(hcmd, dcmd, g, label=label, max_failures=2)   # counts, shrinks, reports
+    if not bad_obs and bad_int and not ck.violations:
+        # document one internal-only difference (smallest group), keep searching for an observable one
+        g = min(bad_int, key=lambda g: sum(len(c) for c in g))
+        nfail += ck.compare_cases(hcmd, dcmd, g, label=label, max_failures=1)
     return nfail
 
 
@@ -307,18 +319,18 @@ def gen_random(rng, nops, krange, stats, stride=1, offset=0, phases=((1.0, 42),)
     return ops
 
 
-def random_cases(ck, rng, stats):
+def random_cases(ck, rng, stats, mult=1):
     cases = []
     # many small histories (dense key space: lots of collisions, shapes of height 1-4)
-    for _ in range(ck.scale(1500, 20000)):
+    for _ in range(mult * ck.scale(1500, 20000)):
         cases.append(gen_random(rng, 10 + rng.below(60), 4 + rng.below(20), stats,
                                 stride=rng.choice([1, 1, 7, 10 ** 15]), offset=rng.choice([0, 5, 12])))
     # medium
-    for _ in range(ck.scale(60, 600)):
+    for _ in range(mult * ck.scale(60, 600)):
         cases.append(gen_random(rng, 300 + rng.below(500), 50 + rng.below(300), stats,
                                 stride=rng.choice([1, 3]), offset=rng.choice([0, 100])))
     # large
-    for _ in range(ck.scale(4, 32)):
+    for _ in range(mult * ck.scale(4, 32)):
         n = ck.scale(2000, 10000)
         cases.append(gen_random(rng, 3 * n, 2 * n, stats, phases=((0.6, 76), (0.4, 8))))
     return cases
@@ -431,22 +443,24 @@ def run(ck):
     if found_concrete(ck):
         return
 
-    # 4. something broke (a theorem, the build, or an internal-only difference): search harder
+    # 4. something broke (a theorem, the build, or an internal-only difference): the property is
+    #    no longer shown -> spend the search budget (4x volume, next permutation size) on finding
+    #    an observable divergence
     only_int = ck.violations and not any(v["kind"] == "obs" for v in ck.violations)
-    if (not ck.proof_ok or only_int) and ck.quick():
+    if not ck.proof_ok or only_int:
         ck.cov["intensified"] = True
-        perms_exhaustive(ck, hcmd, dcmd, 7, pairs=[(i, i + 1, 0, 5040) for i in range(0, 5040, 7)],
-                         label="perms n=7 (intensified)")
-        old = ck.tier
-        ck.tier = "thorough"
-        try:
+        n = nmax + 1
+        F = math.factorial(n)
+        step = ck.scale(35, 1)
+        blocks = [(i, i + 1, 0, F if n <= 7 else 720) for i in range(0, F, step)]
+        perms_exhaustive(ck, hcmd, dcmd, n, pairs=blocks, label="perms n=%d (intensified)" % n)
+        if not found_concrete(ck):
             stats2 = dict.fromkeys(stats, 0)
-            more = random_cases(ck, rng, stats2)
-        finally:
-            ck.tier = old
-        more.sort(key=len, reverse=True)
-        run_cases_parallel(ck, hcmd, dcmd, [c for c in more if len(c) > 1500], "random-large+", chunk=1)
-        run_cases_parallel(ck, hcmd, dcmd, [c for c in more if len(c) <= 1500], "random+")
+            more = random_cases(ck, rng, stats2, mult=4)
+            more.sort(key=len, reverse=True)
+            run_cases_parallel(ck, hcmd, dcmd, [c for c in more if len(c) > 1500], "random-large+", chunk=1)
+            run_cases_parallel(ck, hcmd, dcmd, [c for c in more if len(c) <= 1500], "random+")
+            ck.cov["op_histogram_intensified"] = stats2
     finish_counts(ck)
     if not ck.quick():
         ck.leanchecker(PROP_MODULES)
